@@ -4,6 +4,7 @@ import (
 	"github.com/Masterminds/semver"
 	"github.com/nyaruka/gocommon/jsonx"
 	"github.com/nyaruka/goflow/zzverif"
+	"strings"
 )
 
 var verifChainVersions = []string{"13.0.0", "13.1.0", "13.2.0", "13.3.0", "13.4.0", "13.5.0", "13.6.0"}
@@ -27,7 +28,7 @@ func verifChainText(name string, n int) string {
 // migrating one version at a time gives, and for a source before 13.4 and a
 // target from 13.5 on the send_msg action's template variables and their
 // translation (arbitrary texts) arrive in template_variables.
-// cover: multi-step, crosses-13.4-and-13.5, translations-arrived
+// cover: multi-step, crosses-13.4-and-13.5, translations-arrived, crosses-13.3, webhook-in-translation-only
 func VerifC16_Chain() {
 	verifFaultAt = [2]int{-1, -1}
 	from := 1 + zzverif.Choice("source-version", 5) // (13.0 templating objects have no UUID and so no translations)
@@ -60,6 +61,17 @@ func VerifC16_Chain() {
 		delete(spa, "comp1")
 		spa["a1"].(map[string]any)["template_variables"] = []any{t1, "w2"}
 	}
+	// the message text and its translation refer to @webhook in both, in the base text only or in the translation only
+	baseText, spaText := "hi @webhook", "hola @webhook.name"
+	switch zzverif.Choice("webhook-referenced-in", 3) {
+	case 1:
+		spaText = "hola"
+	case 2:
+		baseText = "hi"
+		zzverif.Cover("webhook-in-translation-only")
+	}
+	sm["text"] = baseText
+	spa["a1"].(map[string]any)["text"] = []any{spaText}
 	data := jsonx.MustMarshal(f)
 
 	zzverif.ResetEnv()
@@ -81,6 +93,14 @@ func VerifC16_Chain() {
 	zzverif.Assert(err == nil, "migrated definition cannot be read")
 	if from < 4 && to >= 5 {
 		zzverif.Cover("crosses-13.4-and-13.5")
+	}
+	if from < 3 && to >= 3 {
+		// 13.3 rewrites @webhook to @webhook.json wherever a template refers to it, translations included
+		zzverif.Cover("crosses-13.3")
+		gotBase, _ := out.Nodes()[0].Actions()[0]["text"].(string)
+		gotSpa := out.Localization().GetLanguageTranslation("spa").GetTranslation("a1", "text")
+		zzverif.Assert(gotBase == strings.ReplaceAll(baseText, "@webhook", "@webhook.json"), "the base text was not rewritten to keep its meaning")
+		zzverif.Assert(len(gotSpa) == 1 && gotSpa[0] == strings.ReplaceAll(spaText, "@webhook", "@webhook.json"), "a translation was not rewritten to keep its meaning")
 	}
 	if to >= 5 {
 		sm = out.Nodes()[0].Actions()[0]
